@@ -6,6 +6,8 @@ From PcfgGen Require Import Consts_gen Kernel_gen.
 From Coq Require Import ZArith NArith.
 From Pcfg Require Import Expand ExpandProofs ExpandRt ExpandGenProofs.
 From PcfgGen Require Import Expand_gen.
+From Pcfg Require Import SessionRt SessionPrinceGenProofs.
+From PcfgGen Require Import SessionPrince_gen.
 Import ListNotations.
 
 (* side condition on the source: the remaining size is handed to create_guesses *)
@@ -74,7 +76,50 @@ Theorem C17_source_example :
     Ok (firstn 5 (denote up_ascii segs_ex), 5%Z).
 Proof. exact (conj source_example_resolves (conj source_example_wellformed source_example_limit)). Qed.
 
+
+(* ---- translator tie of the wordlist loop itself: gen/SessionPrince_gen.v is the translation of
+   the Python text of lib_princeling/wordlist_generation.py create_prince_wordlist
+   (harness/translate_session.py, redone on every run).  In EVERY world in which the queue
+   hands out the pre-terminals [pending] one by one and create_guesses meets the contract
+   proved of it above (the first `limit` guesses of the pre-terminal's expansion, all of them
+   for None / 0, and their number), for every --size (None or n) and fuel above the number
+   of pre-terminals, the translated function writes exactly what the model [prince true]
+   writes - the loop test `num_generated_guesses < max_size`, the remaining size
+   `max_size - num_generated_guesses` handed to create_guesses and the returned count added
+   are the source's *)
+Theorem C17_source_create_prince_wordlist_is_model :
+  forall (W Item Pt : Type) (new_queue : W -> W) (queue_next : W -> option Item * W) (item_pt : Item -> Pt)
+         (create_guesses : Pt -> bool -> option Z -> W -> sres Z * list nat * W)
+         (pending : W -> list Item) (expansion : Pt -> list nat),
+  queue_contract queue_next pending -> create_guesses_contract create_guesses pending expansion ->
+  forall (size : option nat) (fuel : nat) (w : W), length (pending (new_queue w)) < fuel ->
+  exists w', py_create_prince_wordlist new_queue queue_next item_pt create_guesses fuel (zsize size) w =
+             (SOk tt, prince true (groups item_pt pending expansion (new_queue w)) 0 size, w').
+Proof. exact (@prince_eq). Qed.
+
+(* C17_size_exact transported to the source: at most --size words, exactly the first n of
+   the stream the queue order and the expansions define *)
+Theorem C17_source_size_exact :
+  forall (W Item Pt : Type) (new_queue : W -> W) (queue_next : W -> option Item * W) (item_pt : Item -> Pt)
+         (create_guesses : Pt -> bool -> option Z -> W -> sres Z * list nat * W)
+         (pending : W -> list Item) (expansion : Pt -> list nat),
+  queue_contract queue_next pending -> create_guesses_contract create_guesses pending expansion ->
+  forall (n fuel : nat) (w : W), length (pending (new_queue w)) < fuel ->
+  snd (fst (py_create_prince_wordlist new_queue queue_next item_pt create_guesses fuel (Some (Z.of_nat n)) w))
+  = firstn n (concat (groups item_pt pending expansion (new_queue w))).
+Proof. exact (@source_size_exact). Qed.
+
+(* the hypotheses are satisfiable (the world of Session.v: the queue is a list of groups) and
+   the translated function computes *)
+Theorem C17_source_prince_example :
+  queue_contract lw_next (fun w => w) /\ create_guesses_contract lw_create (fun w => w) (fun gs => gs) /\
+  py_create_prince_wordlist (fun w => w) lw_next (fun gs => gs) lw_create 4 (Some 4%Z) [[1;2;3];[4;5;6];[7]]
+  = (SOk tt, [1;2;3;4], [[7]]).
+Proof. exact (conj list_world_queue (conj list_world_create (proj1 list_world_example))). Qed.
+
 Print Assumptions C17_size_exact.
 Print Assumptions C17_sorted_once.
 Print Assumptions C17_source_recursive_guesses_is_model.
 Print Assumptions C17_source_size_inside_preterminal.
+Print Assumptions C17_source_create_prince_wordlist_is_model.
+Print Assumptions C17_source_size_exact.
